@@ -41,8 +41,56 @@ def uri_shapes(ctx):
     return U
 
 
-def own2_shapes(ctx):
+def res_header_shapes(ctx):
+    def D(prelogs=0, ex=0, rep=0, cl=0, amb=0):
+        return [prelogs, ex, rep, cl, amb]
     S = []
+    for log in (0, 1):
+        S.append([log, 0, 1] + D())
+        S.append([log, 0, 1] + D(prelogs=1))
+        S.append([log, 0, 1] + D(prelogs=2))
+        S.append([log, 1, 1] + D() + D(ex=1))
+        S.append([log, 2, 1] + D() + D(ex=1) + D(ex=1, rep=1))
+        S.append([log, 1, 1] + D(cl=1) + D(ex=1, cl=1))
+        S.append([log, 1, 1] + D(cl=1) + D(ex=1, cl=1, amb=1))
+        S.append([log, 2, 2] + D() + D() + D(ex=2) + D())
+    S.append([0, 66, 2] + D() + D(ex=1) + D(ex=1, rep=1) * 64 + D(ex=1, rep=1) + D())
+    if ctx.thorough():
+        # 33rd distinct header: the table's list (capacity 64) grows inside htp_table_add; 9th log message: the messages list grows
+        S.append([1, 32, 2] + D() * 32 + D() + D())
+        S.append([1, 8, 2] + D() + D(ex=1) + D() * 6 + D(ex=2) + D(ex=3))
+        # (a description with rep=1 needs the REPEATED flag set by a header of the fault-free setup)
+        S.append([1, 4, 2] + D(prelogs=1) + D(cl=1) + D() + D(ex=3) + D(ex=2, cl=1, amb=1) + D(ex=3, rep=1))
+    return S
+
+
+def decomp_shapes(ctx):
+    S = []
+    for log in (0, 1):
+        for lz in (0, 1):
+            for fmt in (1, 2, 3, 0):
+                S.append(("decomp_create", [log, lz, fmt]))
+    for fmt in (1, 2, 3):
+        S.append(("decomp_used", [fmt]))
+    # log on, LZMA enabled, a chain exists already, fast-path format, slow path, tokens
+    T = [[0, 1, 0, 0, 0], [0, 1, 0, 1, 0], [1, 1, 0, 2, 0], [1, 1, 0, 3, 0], [1, 0, 0, 3, 0], [0, 1, 1, 1, 0], [0, 1, 1, 0, 0], [1, 1, 1, 3, 0],
+         [0, 1, 0, 0, 1, 1, 2], [1, 1, 0, 0, 1, 11], [1, 1, 0, 0, 1, 12, 1], [1, 1, 0, 0, 1, 5], [1, 1, 0, 0, 1, 4, 2], [1, 1, 0, 0, 1, 5, 1, 4, 3],
+         [1, 1, 0, 0, 1, 1, 2, 6], [1, 1, 0, 0, 1, 1, 6, 2], [1, 1, 1, 0, 1, 2, 1], [1, 0, 0, 0, 1, 1, 3, 2], [0, 1, 0, 0, 1, 3, 3, 1]]
+    if ctx.thorough():
+        T += [[log, lz, pre, 0, 1] + list(t) for log in (0, 1) for lz in (0, 1) for pre in (0, 1)
+              for t in ((1,), (2, 2), (3, 1), (1, 2, 3), (11, 12, 5, 4), (1, 1, 1, 6), (5, 5, 6, 1), (4, 3, 4, 2), (2, 12, 3, 11, 1))]
+    for t in T:
+        S.append(("res_state_headers", t))
+    return S
+
+
+def own2_shapes(ctx):
+    S = decomp_shapes(ctx)
+    for a in res_header_shapes(ctx):
+        S.append(("res_header", a))
+    for a in ((0, 1, 0, 0, 0), (0, 3, 0, 0, 0), (1, 2, 1, 0, 0), (0, 2, 1, 0, 0), (0, 3, 0, 1, 0), (0, 1, 0, 1, 0), (0, 2, 0, 0, 1),
+              (1, 3, 1, 1, 1), (0, 0, 0, 0, 1)):
+        S.append(("res_buffer", list(a)))
     for sh in uri_shapes(ctx):
         S.append(("parse_uri", [0, 0] + sh))
         S.append(("normalize", sh))
